@@ -77,10 +77,6 @@ instance {α : Type} [LE α] [DecidableLE α] (a : Attrs α) (x : α) : Decidabl
 /-- the entry of an alias-of-an-alias seen from the outer canonical: signs multiply -/
 def compose {α : Type} (s : Bool) (m : Entry α) : Entry α := { m with neg := xor s m.neg }
 
-/-- what the loop may adopt as start from one entry -/
-def adopt {α : Type} [Neg α] (e : Entry α) : Option α :=
-  if e.skipped then none else e.attrs.start.map (sgn e.neg)
-
 section
 variable {α : Type} [LinearOrder α] [InvolutiveNeg α]
 
